@@ -278,16 +278,40 @@ package standard
 //@ hint [tags] forall a Bytes, b Bytes :: propKey(a) != attKey(b)
 
 // ---- slashing-protection export (C11) ----
-// Assumed boundary (the body walks a badger iterator): the returned map mirrors the store for the 49-byte keys.
+// The body walks a badger iterator (each committed key delivered once: assumed contract of the iterator). The returned
+// map mirrors the store provided every key in it is 49 bytes long (what dirk writes for 48-byte public keys: key + action).
 //@ func (*Store).FetchAll
-//@ requires s != nil
+//@ requires s != nil && s.db != nil
+//@ requires [keys49] forall k Bytes :: k in db ==> blen(k) == 49 && bnorm(k)
 //@ ensures [all] result1 == nil ==> result0 != nil && (forall k [49]byte :: (k in result0) <==> (bytes(k) in db)) && (forall k [49]byte :: k in result0 ==> result0[k] != nil && allocated(result0[k]) && bytes(result0[k]) == db[bytes(k)])
+//@ modifies itseen, itpos
+//@ func (*Store).FetchAll$1$1
+//@ requires items != nil && item != nil
+//@ requires [key49] blen(itemkey(item)) == 49 && bnorm(itemkey(item))
+//@ modifies mapall(items)
+//@ ensures [ok] result == nil
+//@ ensures [dom] forall k [49]byte :: (k in items) <==> (old(k in items) || bytes(k) == itemkey(item))
+//@ ensures [new] forall k [49]byte :: bytes(k) == itemkey(item) ==> items[k] != nil && fresh(items[k]) && allocated(items[k]) && bytes(items[k]) == old(bytes(v))
+//@ ensures [keep] forall k [49]byte :: old(k in items) && bytes(k) != itemkey(item) ==> items[k] == old(items[k])
+//@ func (*Store).FetchAll$1
+//@ requires [keys49] forall k Bytes :: k in db ==> blen(k) == 49 && bnorm(k)
+//@ requires [fresh] items != nil && (forall k [49]byte :: !(k in items))
+//@ modifies itseen, itpos, mapall(items)
+//@ ensures [all] result == nil ==> (forall k [49]byte :: (k in items) <==> (bytes(k) in db)) && (forall k [49]byte :: k in items ==> items[k] != nil && allocated(items[k]) && bytes(items[k]) == db[bytes(k)])
+//@ hint-after Value@1 [new] result == nil ==> (forall k [49]byte :: bytes(k) == itemkey(item) ==> k in items && items[k] != nil && allocated(items[k]) && bytes(items[k]) == db[bytes(k)])
+//@ hint-after Value@1 [kept] result == nil ==> (forall k [49]byte :: k in items && bytes(k) != itemkey(item) ==> items[k] != nil && allocated(items[k]) && bytes(items[k]) == db[bytes(k)])
+//@ loop #1
+//@ invariant [dom] forall k [49]byte :: (k in items) <==> itseen[bytes(k)]
+//@ invariant [sub] forall b Bytes :: itseen[b] ==> b in db
+//@ invariant [vals] forall k [49]byte :: k in items ==> items[k] != nil && allocated(items[k]) && bytes(items[k]) == db[bytes(k)]
 
 //@ func (*Service).ExportSlashingProtection
 //@ reveal rowPropOk rowPropL rowAttOk rowAttS rowAttT
 //@ focus akey : range
 //@ focus pkey : range
-//@ requires s != nil && s.store != nil
+//@ requires s != nil && s.store != nil && s.store.db != nil
+// (assumption about the store's contents: every key is a 48-byte public key followed by the action byte)
+//@ requires [keys49] forall k Bytes :: k in db ==> blen(k) == 49 && bnorm(k)
 //@ ensures [records] result1 == nil ==> result0 != nil && (forall k [48]byte :: k in result0 ==> result0[k] != nil && allocated(result0[k]) && result0[k].HighestProposedSlot == wmPropL(bytes(k)) && result0[k].HighestAttestedSourceEpoch == wmAttS(bytes(k)) && result0[k].HighestAttestedTargetEpoch == wmAttT(bytes(k)))
 //@ ensures [absent] result1 == nil ==> (forall k [48]byte :: !(k in result0) ==> wmPropL(bytes(k)) == 0 - 1 && wmAttS(bytes(k)) == 0 - 1 && wmAttT(bytes(k)) == 0 - 1)
 //@ ensures [pubkey] result1 == nil ==> (forall k [48]byte :: k in result0 ==> len(result0[k].PubKey) == 48 && key48(result0[k].PubKey) == k)
